@@ -27,6 +27,26 @@ CALL_ENUM_CFG = "CONSTANT CoreFrom = 0\nINIT CInit\nNEXT CNext\nINVARIANT CLawsH
 CALL_JUDGE_CFG = "CONSTANT CoreFrom = 0\nINIT CJudgeInit\nNEXT CNext\nCHECK_DEADLOCK FALSE\n"
 
 
+def tlc_run(*a, **kw):
+    """tlc.run, repeated when the JVM was killed from outside (shared machine: OOM killer, another agent's pkill)"""
+    for attempt in range(4):
+        res = tlc.run(*a, **kw)
+        if res.rc not in (-9, -15, 137, 143):
+            return res
+        time.sleep(3 + 5 * attempt)
+    return res
+
+
+def tlc_judge(*a, **kw):
+    for attempt in range(4):
+        try:
+            return tlc.judge(*a, **kw)
+        except Machinery as e:
+            if not any(("rc=%d" % k) in str(e) for k in (-9, -15, 137, 143)) or attempt == 3:
+                raise
+            time.sleep(3 + 5 * attempt)
+
+
 def hkey(h):
     return json.dumps(h, sort_keys=True)
 
@@ -46,7 +66,7 @@ def judge_traces(rep, recs, dv, tag, cal=False):
         r["cal"] = cal
     if not recs:
         return {}, 0, 0
-    out, st, tr, wall = tlc.judge(rep.pid, "C08_Trace", recs, TRACE_CFG, tag=tag, timeout=2400,
+    out, st, tr, wall = tlc_judge(rep.pid, "C08_Trace", recs, TRACE_CFG, tag=tag, timeout=2400,
                                   shards=min(16, max(1, len(recs) // 40)))
     got = {v["id"]: v for v in out}
     if len(got) != len(recs):
@@ -86,7 +106,7 @@ def part_histories(rep):
     phases = rep.notes.setdefault("phase_wall_s", {})
     t0 = time.time()
     # ---- 1. model checking + enumeration -------------------------------------------------------------
-    res = tlc.run(pid, "C08", ENUM_CFG % 0, env={"MAXLEN": "2"}, timeout=900, tag="enum2")
+    res = tlc_run(pid, "C08", ENUM_CFG % 0, env={"MAXLEN": "2"}, timeout=900, tag="enum2")
     rep.add_tlc("ObjModel histories<=2, full alphabet (ModelInv, Frame)", res)
     bat = [x for x in res.records if "on" in x]
     if len(bat) != 1:
@@ -102,7 +122,7 @@ def part_histories(rep):
         raise Machinery("enumeration produced only %d histories" % n2)
     rep.spaces.append({"space": "all histories of length <= 2 over the full alphabet", "cases": n2, "complete": True})
     if not quick:
-        res3 = tlc.run(pid, "C08", ENUM_CFG % 1, env={"MAXLEN": "3"}, timeout=1500, tag="enum3")
+        res3 = tlc_run(pid, "C08", ENUM_CFG % 1, env={"MAXLEN": "3"}, timeout=1500, tag="enum3")
         rep.add_tlc("ObjModel histories<=3, core alphabet (ModelInv, Frame)", res3)
         for x in res3.records:
             if "h" in x:
@@ -120,7 +140,7 @@ def part_histories(rep):
         cases.append({"id": len(cases), "h": h, "observe": "last", "battery": bpath, "src": "enum"})
     # ---- 2. simulation walks ----------------------------------------------------------------------------
     per_worker = 32 if quick else 250
-    sim = tlc.run(pid, "C08", SIM_CFG, env={"MAXLEN": "12"}, timeout=900, tag="sim", simulate="num=%d" % per_worker,
+    sim = tlc_run(pid, "C08", SIM_CFG, env={"MAXLEN": "12"}, timeout=900, tag="sim", simulate="num=%d" % per_worker,
                   depth=14, seed=rep.seed)
     rep.add_tlc("ObjModel -simulate walks depth 12", sim)
     walks = {}
@@ -130,7 +150,7 @@ def part_histories(rep):
     if len(walks) < per_worker * 4:
         raise Machinery("simulation produced only %d walks" % len(walks))
     if not quick:
-        sim2 = tlc.run(pid, "C08", SIM_CFG, env={"MAXLEN": "25"}, timeout=900, tag="sim25", simulate="num=60",
+        sim2 = tlc_run(pid, "C08", SIM_CFG, env={"MAXLEN": "25"}, timeout=900, tag="sim25", simulate="num=60",
                        depth=27, seed=rep.seed + 1)
         rep.add_tlc("ObjModel -simulate walks depth 25", sim2)
         for x in sim2.records:
@@ -245,7 +265,7 @@ def random_history(rnd, universe):
 # --------------------------------------------------------------------------------------------------
 def part_callforms(rep):
     pid = rep.pid
-    res = tlc.run(pid, "C08", CALL_ENUM_CFG, env={"TIER": rep.tier}, timeout=600, tag="callenum")
+    res = tlc_run(pid, "C08", CALL_ENUM_CFG, env={"TIER": rep.tier}, timeout=600, tag="callenum")
     rep.add_tlc("C08 call-form table laws + enumeration", res)
     cells = [x for x in res.records if "form" in x]
     if len(cells) < 60:
@@ -259,7 +279,7 @@ def part_callforms(rep):
     dv = sorted(rep.findings)          # the chain cells also meet object-model deviations
     recs = [{"id": r["id"], "cell": {k: v for k, v in byid[r["id"]].items() if k != "id"}, "obs": r["obs"], "dv": dv}
             for r in results]
-    verdicts, st, tr, wall = tlc.judge(pid, "C08", recs, CALL_JUDGE_CFG, tag="calljudge", shards=2)
+    verdicts, st, tr, wall = tlc_judge(pid, "C08", recs, CALL_JUDGE_CFG, tag="calljudge", shards=2)
     rep.add_judge(len(recs), st, tr)
     if len(verdicts) != len(recs):
         raise Machinery("call-form judge returned %d verdicts for %d cells" % (len(verdicts), len(recs)))
